@@ -253,7 +253,7 @@ class HarnessError(Exception):
 # break this property's check.
 HARNESS_SETS = {
     "C01": ["l1"], "C02": ["l1"], "C03": ["l1"], "C05": ["l1"], "C14": ["l1"],
-    "C06": ["c06", "l1"], "C17": ["c17", "l1"],
+    "C06": ["c06", "l1"], "C17": ["c17", "l1"], "C12": ["c12", "l1"],
     "C04": ["c04", "l1", "p4rt"], "C15": ["c15", "l1", "p4rt"], "C16": ["c16", "p4rt"], "C11": ["c11", "l1", "p4rt"],
 }
 HARNESS_KEY = None      # set by check.py to the property id
